@@ -30,6 +30,9 @@ func exploreChoices(c *fw.Ctx, run func(prefix []int) h.Outcome, bound int, visi
 			}
 			p := o.Points[i]
 			for alt := 1; alt < p.N; alt++ {
+				if execs&31 == 0 && c.Expired() {
+					return
+				}
 				np := make([]int, i+1)
 				for k := 0; k < i; k++ {
 					np[k] = o.Points[k].Chosen
